@@ -297,7 +297,7 @@ func Check() *common.Check {
 		Rule: "(1) all strings of <=3 (quick) / <=4 (thorough) fragments over lexgen's 37-fragment lexical alphabet and over a 14-fragment hostile alphabet (invalid UTF-8, NUL, letters whose upper case has another byte length, quote openers, injection snippets), and all character strings up to length 5..9 (+1 thorough) over six delimiter families (dollar quoting, quotes and backslash, comment marks, bracket / back-tick identifiers, mixed), bare and inside a SELECT; " +
 			"(2) all lexeme sequences of length <=3 (quick) / <=4 (thorough, reduced alphabet) over a 60-lexeme keyword/operator/literal alphabet; (3) all parser-token sequences of length <=2 over every token type the library names, and <=3 over 50 core types, " +
 			"each with and without a trailing EOF token (length-3 slices without EOF: thorough only) and with empty literals, x position mappings shorter / equal / longer than the token slice; (4) every token prefix of every distinct sqlgen statement, every byte prefix (step 1 quick up to 600 bytes) of every corpus file, " +
-			"every single-token deletion / duplication / replacement by 12 hostile tokens of a spread of statements; (5) a length ladder (every lexeme length 0..160/600 in 12 error templates and as token literals) and 12 saturation histories of 2200 distinct unexpected-token texts each (with / without a keyword suggestion, mixed in both orders) through the process-wide suggestion cache. Each input goes through every public entry point (about 60 for text, incl. every dialect and strict mode; on success also serialisers, extractors, scanner, traversal). " +
+			"every single-token deletion / duplication / replacement by 12 hostile tokens of a spread of statements; (5) a length ladder (every lexeme length 0..160/600 in 12 error templates and as token literals), a depth ladder (13 nesting / chaining constructs at every depth 1..110) and 12 saturation histories of 2200 distinct unexpected-token texts each (with / without a keyword suggestion, mixed in both orders) through the process-wide suggestion cache. Each input goes through every public entry point (about 60 for text, incl. every dialect and strict mode; on success also serialisers, extractors, scanner, traversal). " +
 			"Oracle: the call returns; no panic reaches the caller; the worker process does not die and does not go silent. distinct = distinct input; non-trivial = the input is accepted by the default parser, so the tree consumers run too",
 		Assume: []string{"a hang is 'no progress of a worker for 120 s' (cases take microseconds)", "inputs near the 10 MiB limit are exercised by C02 / C20 families, not here"},
 		Enumerate: func(e *common.Enum) {
@@ -512,6 +512,55 @@ func Check() *common.Check {
 				}
 				return nil
 			})
+			// depth ladder: every nesting construct at every depth 1..110 (the parser's limit is 100) and operator / UNION
+			// chains of every length up to 110, through every entry point and - when accepted - every tree consumer: work
+			// that doubles per level (a node reached through two traversals) never returns long before the limit
+			nests := []struct {
+				name string
+				f    func(d int) string
+			}{
+				{"parens", func(d int) string {
+					return "SELECT " + strings.Repeat("(", d) + "c1" + strings.Repeat(")", d) + " FROM t1"
+				}},
+				{"in-subquery", func(d int) string {
+					return "SELECT c1 FROM t1 WHERE c1 IN " + strings.Repeat("(SELECT c2 FROM t2 WHERE c2 IN ", d) + "(1)" + strings.Repeat(")", d)
+				}},
+				{"scalar-subquery", func(d int) string {
+					return "SELECT c1 FROM t1 WHERE c1 = " + strings.Repeat("(SELECT MAX(c2) FROM t2 WHERE c2 = ", d) + "1" + strings.Repeat(")", d)
+				}},
+				{"exists", func(d int) string {
+					return "SELECT c1 FROM t1 WHERE " + strings.Repeat("EXISTS (SELECT 1 FROM t2 WHERE ", d) + "c2 = 1" + strings.Repeat(")", d)
+				}},
+				{"select-item-subquery", func(d int) string {
+					return "SELECT " + strings.Repeat("(SELECT ", d) + "c1" + strings.Repeat(" FROM t2)", d) + " FROM t1"
+				}},
+				{"derived", func(d int) string {
+					return "SELECT c1 FROM " + strings.Repeat("(SELECT c1 FROM ", d) + "t1" + strings.Repeat(") a1", d)
+				}},
+				{"join-derived", func(d int) string {
+					return "SELECT c1 FROM t0" + strings.Repeat(" JOIN (SELECT c1 FROM t1", d) + strings.Repeat(") a1 ON TRUE", d)
+				}},
+				{"case", func(d int) string {
+					return "SELECT " + strings.Repeat("CASE WHEN c1 > 0 THEN ", d) + "1" + strings.Repeat(" ELSE 0 END", d) + " FROM t1"
+				}},
+				{"call", func(d int) string {
+					return "SELECT " + strings.Repeat("f1(", d) + "c1" + strings.Repeat(")", d) + " FROM t1"
+				}},
+				{"cte", func(d int) string {
+					return strings.Repeat("WITH w1 AS (", d) + "SELECT c1 FROM t1" + strings.Repeat(") SELECT c1 FROM w1", d)
+				}},
+				{"union-chain", func(d int) string { return "SELECT c1 FROM t1" + strings.Repeat(" UNION SELECT c2 FROM t2", d) }},
+				{"and-chain", func(d int) string { return "SELECT c1 FROM t1 WHERE c1 = 1" + strings.Repeat(" AND c2 = 2", d) }},
+				{"mixed", func(d int) string {
+					return "SELECT c1 FROM t1 WHERE " + strings.Repeat("c1 IN (SELECT c2 FROM t2 WHERE EXISTS (SELECT 1 FROM t3 WHERE c3 = (SELECT MAX(c4) FROM t4 WHERE ", d/3+1) + "TRUE" + strings.Repeat(")))", d/3+1)
+				}},
+			}
+			for _, ns := range nests {
+				for d := 1; d <= 110; d++ {
+					text := ns.f(d)
+					e.Do(fmt.Sprintf("depth|%s|%d", ns.name, d), func(c *common.Ctx) { c.Input(text); onText(c, text, false) })
+				}
+			}
 			// saturation histories: the library keeps one process-wide structure keyed by input text (the keyword-suggestion
 			// cache behind parser error hints, capacity 1000).  Whatever the worker did before, 2200 further distinct
 			// unexpected-token texts drive it through filling and eviction at least twice - with texts that get a suggestion,
